@@ -296,6 +296,10 @@ impl<T> MutexIsh<T> {
     }
 
     pub fn locked<U>(&self, func: impl FnOnce(&mut T) -> U) -> U {
+        #[cfg(unimock_verif)]
+        crate::verif::yield_point(crate::verif::Site::Lock);
+        #[cfg(unimock_verif)]
+        let _critical = crate::verif::CriticalGuard::enter();
         let mut lock = self.inner.lock().unwrap();
         func(&mut *lock)
     }
@@ -310,6 +314,10 @@ impl<T> MutexIsh<T> {
     }
 
     pub fn locked<U>(&self, func: impl FnOnce(&mut T) -> U) -> U {
+        #[cfg(unimock_verif)]
+        crate::verif::yield_point(crate::verif::Site::Lock);
+        #[cfg(unimock_verif)]
+        let _critical = crate::verif::CriticalGuard::enter();
         let mut lock = self.inner.lock();
         func(&mut *lock)
     }
@@ -325,5 +333,26 @@ impl<T> MutexIsh<T> {
 
     pub fn locked<U>(&self, func: impl FnOnce(&mut T) -> U) -> U {
         func(&mut self.inner.borrow_mut())
+    }
+}
+
+#[cfg(unimock_verif)]
+impl<T> MutexIsh<T> {
+    /// Read the protected value without a yield point (verification hooks only).
+    pub fn verif_peek<U>(&self, func: impl FnOnce(&T) -> U) -> U {
+        #[cfg(feature = "std")]
+        {
+            let lock = self.inner.lock().unwrap_or_else(|poison| poison.into_inner());
+            func(&*lock)
+        }
+        #[cfg(all(feature = "spin-lock", not(feature = "std")))]
+        {
+            let lock = self.inner.lock();
+            func(&*lock)
+        }
+        #[cfg(not(any(feature = "std", feature = "spin-lock")))]
+        {
+            func(&*self.inner.borrow())
+        }
     }
 }
